@@ -8,6 +8,7 @@ import RosuModel.Model.ModsWire
 import RosuModel.Model.StrainsWire
 import RosuModel.Model.GenStateWire
 import RosuModel.Model.LifeWire
+import RosuModel.Model.FiniteWire
 
 open Rosu
 
@@ -42,6 +43,7 @@ def handle (line : String) : String :=
   | "GS" :: mode :: args => GenState.handleGS mode args
   | ["LIFE", mode, objs, sig, hist] => Lifetime.handleLife mode objs sig hist
   | "GSQ" :: mode :: args => GenState.handleGSQ mode args
+  | "C09" :: args => Finite.handleFinite args
   | _ => "bad-op"
 
 partial def loop (h : IO.FS.Stream) (out : IO.FS.Stream) : IO Unit := do
